@@ -1,0 +1,283 @@
+//go:build verif
+
+package parser
+
+// Verification-only exports (build tag "verif"). This file adds no behaviour:
+// it dumps lexer tokens, walker fragments and syntax trees, including the
+// unexported parts (Value.token / Value.array, Walker), as plain data so that
+// the external verification harness can compare them with its model.
+
+import (
+	"github.com/pentops/j5/internal/bcl/errpos"
+)
+
+type VerifTok struct {
+	Type       int
+	Lit        string
+	Start, End Position
+}
+
+type VerifDiag struct {
+	HasPos     bool
+	Start, End Position
+	Msg        string
+}
+
+type VerifIdent struct {
+	Tok        VerifTok
+	Value      string
+	Start, End Position
+}
+
+type VerifRef struct {
+	Idents     []VerifIdent
+	Start, End Position
+}
+
+type VerifValue struct {
+	IsArray    bool // array != nil
+	Tok        VerifTok
+	Elems      []VerifValue
+	Start, End Position
+}
+
+type VerifTag struct {
+	Mark       int
+	MarkTok    VerifTok
+	HasValue   bool
+	Value      VerifValue
+	HasRef     bool
+	Ref        VerifRef
+	Start, End Position
+}
+
+type VerifComment struct {
+	Value      string
+	Start, End Position
+}
+
+type VerifFrag struct {
+	Kind       string // header | assign | desc | comment | close
+	Start, End Position
+	HasComment bool
+	Comment    VerifComment
+
+	// header
+	Type    VerifRef
+	Tags    []VerifTag
+	Quals   []VerifTag
+	HasDesc bool
+	Desc    *VerifFrag
+	Open    bool
+
+	// assign
+	Key    VerifRef
+	Append bool
+	Value  VerifValue
+
+	// desc
+	DescToks  []VerifTok
+	DescValue string
+
+	// comment, close
+	Tok VerifTok
+
+	// tree only: the body of a block
+	Body []VerifFrag
+}
+
+func verifTok(t Token) VerifTok {
+	return VerifTok{Type: int(t.Type), Lit: t.Lit, Start: t.Start, End: t.End}
+}
+
+func verifDiags(errs errpos.Errors) []VerifDiag {
+	out := make([]VerifDiag, 0, len(errs))
+	for _, e := range errs {
+		d := VerifDiag{}
+		if e.Err != nil {
+			d.Msg = e.Err.Error()
+		}
+		if e.Pos != nil {
+			d.HasPos = true
+			d.Start = e.Pos.Start
+			d.End = e.Pos.End
+		}
+		out = append(out, d)
+	}
+	return out
+}
+
+func verifRef(r Reference) VerifRef {
+	out := VerifRef{Start: r.Start, End: r.End}
+	for _, id := range r.Idents {
+		out.Idents = append(out.Idents, VerifIdent{Tok: verifTok(id.Token), Value: id.Value, Start: id.Start, End: id.End})
+	}
+	return out
+}
+
+func verifValue(v Value) VerifValue {
+	out := VerifValue{IsArray: v.array != nil, Tok: verifTok(v.token), Start: v.Start, End: v.End}
+	for _, e := range v.array {
+		out.Elems = append(out.Elems, verifValue(e))
+	}
+	return out
+}
+
+func verifTag(t TagValue) VerifTag {
+	out := VerifTag{Mark: int(t.Mark), MarkTok: verifTok(t.MarkToken), Start: t.Start, End: t.End}
+	if t.Value != nil {
+		out.HasValue = true
+		out.Value = verifValue(*t.Value)
+	}
+	if t.Reference != nil {
+		out.HasRef = true
+		out.Ref = verifRef(*t.Reference)
+	}
+	return out
+}
+
+func verifSource(out *VerifFrag, sn SourceNode) {
+	out.Start = sn.Start
+	out.End = sn.End
+	if sn.Comment != nil {
+		out.HasComment = true
+		out.Comment = VerifComment{Value: sn.Comment.Value, Start: sn.Comment.Start, End: sn.Comment.End}
+	}
+}
+
+func verifDescription(d Description) VerifFrag {
+	out := VerifFrag{Kind: "desc", DescValue: d.Value}
+	verifSource(&out, d.SourceNode)
+	for _, t := range d.Tokens {
+		out.DescToks = append(out.DescToks, verifTok(t))
+	}
+	return out
+}
+
+func verifHeader(h BlockHeader) VerifFrag {
+	out := VerifFrag{Kind: "header", Type: verifRef(h.Type), Open: h.Open}
+	verifSource(&out, h.SourceNode)
+	for _, t := range h.Tags {
+		out.Tags = append(out.Tags, verifTag(t))
+	}
+	for _, t := range h.Qualifiers {
+		out.Quals = append(out.Quals, verifTag(t))
+	}
+	if h.Description != nil {
+		out.HasDesc = true
+		d := verifDescription(*h.Description)
+		out.Desc = &d
+	}
+	return out
+}
+
+func verifAssignment(a Assignment) VerifFrag {
+	out := VerifFrag{Kind: "assign", Key: verifRef(a.Key), Append: a.Append, Value: verifValue(a.Value)}
+	verifSource(&out, a.SourceNode)
+	return out
+}
+
+func verifFragment(f Fragment) VerifFrag {
+	switch s := f.(type) {
+	case BlockHeader:
+		return verifHeader(s)
+	case Assignment:
+		return verifAssignment(s)
+	case Description:
+		return verifDescription(s)
+	case Comment:
+		out := VerifFrag{Kind: "comment", Tok: verifTok(s.Token), DescValue: s.Value}
+		verifSource(&out, s.SourceNode)
+		return out
+	case CloseBlock:
+		out := VerifFrag{Kind: "close", Tok: verifTok(s.Token)}
+		verifSource(&out, s.SourceNode)
+		return out
+	}
+	return VerifFrag{Kind: "unknown"}
+}
+
+// VerifLex runs Lexer.AllTokens and dumps its result and the lexer's errors.
+func VerifLex(input string, failFast bool) (toks []VerifTok, ok bool, diags []VerifDiag, err error) {
+	l := NewLexer(input)
+	tokens, ok, err := l.AllTokens(failFast)
+	for _, t := range tokens {
+		toks = append(toks, verifTok(t))
+	}
+	return toks, ok, verifDiags(l.Errors), err
+}
+
+// VerifFragments runs the lexer and Walker.walkFragments (the part of Walk and
+// of collectFmtFragments before the tree / the formatter) and dumps the result.
+func VerifFragments(input string, failFast bool) (frags []VerifFrag, diags []VerifDiag, lexOK bool, walkErr error) {
+	l := NewLexer(input)
+	tokens, ok, err := l.AllTokens(failFast)
+	if err != nil {
+		return nil, nil, false, err
+	}
+	if !ok {
+		return nil, verifDiags(l.Errors), false, nil
+	}
+	ww := &Walker{tokens: tokens, failFast: failFast}
+	fragments, werr := ww.walkFragments()
+	for _, f := range fragments {
+		frags = append(frags, verifFragment(f))
+	}
+	return frags, verifDiags(ww.errors), true, werr
+}
+
+func verifBody(b Body) []VerifFrag {
+	out := make([]VerifFrag, 0, len(b.Statements))
+	for _, st := range b.Statements {
+		switch s := st.(type) {
+		case *Block:
+			f := verifHeader(s.BlockHeader)
+			f.Kind = "block"
+			f.Body = verifBody(s.Body)
+			out = append(out, f)
+		case *Assignment:
+			out = append(out, verifAssignment(*s))
+		case *Description:
+			out = append(out, verifDescription(*s))
+		default:
+			out = append(out, VerifFrag{Kind: "unknown"})
+		}
+	}
+	return out
+}
+
+// VerifTree dumps a syntax tree returned by ParseFile (nil-safe).
+func VerifTree(f *File) (body []VerifFrag, diags []VerifDiag, isNil bool) {
+	if f == nil {
+		return nil, nil, true
+	}
+	return verifBody(f.Body), verifDiags(f.Errors), false
+}
+
+// VerifTokenSource is tokenSource on a token of the given type and literal.
+func VerifTokenSource(ty int, lit string) string {
+	return tokenSource(Token{Type: TokenType(ty), Lit: lit})
+}
+
+// VerifReformatDescription is reformatDescription.
+func VerifReformatDescription(input string, maxWidth int) []string {
+	return reformatDescription(input, maxWidth)
+}
+
+// VerifTokenNames lists the token enumeration (index = TokenType value).
+func VerifTokenNames() []string {
+	out := make([]string, 0, len(tokens))
+	for i := range tokens {
+		out = append(out, TokenType(i).String())
+	}
+	return out
+}
+
+// VerifOperators is the lexer's operator table (rune -> token type).
+func VerifOperators() map[rune]int {
+	out := map[rune]int{}
+	for r, t := range operators {
+		out[r] = int(t)
+	}
+	return out
+}
